@@ -20,7 +20,7 @@ CHECK_DEADLOCK FALSE
 """
     r = engine.run_tlc("Gen_Repr", cfg, timeout=1200)
     rep.add_mc(r, "Gen_Repr: layout laws for every (n, limit, width) + cases")
-    cases = [c for _, c in r.prints]
+    cases = [dict(c, _n=i) for i, (_, c) in enumerate(r.prints)]
     sc = engine.scratch()
     cp, op = os.path.join(sc, "repr_cases.json"), os.path.join(sc, "repr_out.json")
     json.dump(cases, open(cp, "w"))
